@@ -336,6 +336,7 @@ def props_of(conj, sig, group):
             ps.add('C19')
         if conj == 'published' and sig.get('detached'):
             ps.add('C03')
+            ps.add('C05')     # a stale handle that replaces what is at its path leaves observers that disagree
         return ps
     if kind == 'join':
         ps.add('C06')
